@@ -219,6 +219,21 @@ def discharge(ob, timeout_s=10, use_cvc5=True, tactics=True):
                 return dict(status="proved", backend="z3", time_s=time.time() - t0)
             rp["time_s"] = time.time() - t0
             return rp
+        if rp is None and PURIFY == "decide" and not _has_quantifier(list(ob.hyps) + [ob.goal]):
+            # "decide": the purified pipeline is THE back end for quantifier-free obligations of this property; when it is
+            # inconclusive only one short default attempt follows (keeps runs on a broken tree from taking minutes per obligation)
+            s = z3.Solver()
+            s.set("timeout", int(min(timeout_s, 5) * 1000))
+            for h in ob.hyps:
+                s.add(h)
+            s.add(z3.Not(ob.goal))
+            r = s.check()
+            if r == z3.unsat:
+                return dict(status="proved", backend="z3", time_s=time.time() - t0)
+            if r == z3.sat:
+                m = s.model()
+                return dict(status="refuted", backend="z3", time_s=time.time() - t0, model=model_dict(m), z3model=m)
+            return dict(status="unknown", backend="z3-purified-nlsat+z3", time_s=time.time() - t0, reason=str(s.reason_unknown()))
     quantified = _has_quantifier(list(ob.hyps) + [ob.goal])
     # quantified obligations: short z3 attempt, then cvc5 (often instant where z3's instantiation wanders), then z3 in full
     # (same schedule for obligations over strings, C19: z3's sequence solver often times out where cvc5 answers at once)
